@@ -94,6 +94,7 @@ def bombs(ctx, res):
     if not quick:
         cases += [(d, b, sz, None) for d in (5, 12, 20, 31, 64) for b in (2, 3, 7, 10) for sz in (0, 1, 2**20, 2**32 - 2)]
     walls = []
+    rng0 = random.Random(ctx["seed"] + 7)
     try:
         for depth, breadth, size, extra in cases:
             sc = bomb(depth, breadth, size, extra)
@@ -105,6 +106,17 @@ def bombs(ctx, res):
             if walls[-1] > 20:
                 res.violations.append(vlib.Violation("bomb of depth %d x breadth %d took %.1fs: not linear in distinct objects"
                                                      % (depth, breadth, walls[-1]), {"depth": depth, "breadth": breadth}))
+        # the cheapest bomb whose expansion lands on 2^32: fan-out 65536 twice (two trees, one blob).  The list-based model
+        # is quadratic in the width, so these are judged against the values known by construction.
+        for breadth in (65535, 65536, 65537):
+            sc = bomb(1, breadth, 1)
+            exp = {"unique_blob_count": 1, "unique_tree_count": 2, "unique_tree_entries": 2 * breadth, "max_tree_entries": breadth,
+                   "max_expanded_tree_count": breadth + 1, "max_expanded_blob_count": min(breadth * breadth, 2**32 - 1),
+                   "max_expanded_blob_size": breadth * breadth, "max_path_depth": 2, "unique_commit_count": 1}
+            for style in ("gitlike", "referrer_first"):
+                SP.closed_form_case(eng, res, sc, sc.enum_random([len(sc.objects) - 1], rng0, style=style), exp,
+                                    "bomb of fan-out %d x %d (%s)" % (breadth, breadth, style))
+        SP.wide_cases(eng, res, S.HIST_KEYS, "saturation", True, rng0)
         # sums of already-sized sub-trees that land on / next to the 32-bit cap, followed by direct entries,
         # under three legal enumeration orders (git-like, children before parents, parents before children)
         rng = random.Random(ctx["seed"] + 5)
